@@ -503,7 +503,7 @@ func main() {
 		nbits := len(enc) * 8
 		step := 1
 		if i >= fullBits {
-			step = nbits/c.Scale(16, 64) + 1
+			step = nbits/c.Scale(12, 64) + 1
 		}
 		for b := r.Intn(step); b < nbits; b += step {
 			mut := append([]byte{}, enc...)
@@ -530,7 +530,7 @@ func main() {
 		// 4e. RLP and JSON round trips keep hash and sender
 		h.roundTrips(s, signed, signedV, want)
 		// 4f. chain id / V offsets around the signed values
-		h.chainSweep(i, s, signedV, want, i >= 2 && i < c.Scale(4, 24))
+		h.chainSweep(i, s, signedV, want, i >= 2 && i < c.Scale(3, 24))
 		// 4g. field-patched JSON documents (values taken from the previously signed transaction)
 		if prevSigned != nil && i < c.Scale(8, 200) {
 			h.jsonPatched(signed, prevSigned, s)
@@ -555,12 +555,15 @@ func main() {
 			for _, rr := range grid {
 				for _, ss := range grid {
 					for _, v := range vsl {
-						if r.Chance(c.Scale(82, 0)) {
+						if r.Chance(c.Scale(88, 0)) {
 							continue
 						}
 						t := base.clone()
 						t.r, t.s, t.v = rr, ss, v
 						h.senderCase("grid", s, t)
+						if r.Chance(c.Scale(35, 100)) {
+							h.jsonEntrance(s, t)
+						}
 					}
 				}
 			}
@@ -577,6 +580,7 @@ func main() {
 			t.v = new(big.Int).Add(big.NewInt(35+int64(r.Intn(2))), new(big.Int).Mul(s.c, big.NewInt(2)))
 		}
 		h.senderCase("random-r-boundary-s", s, t)
+		h.jsonEntrance(s, t)
 	}
 
 	// 5b. acceptance at the places the property's anchors name
@@ -1206,6 +1210,42 @@ func (h *harness) chainSweep(idx int, s sgn, signed txv, want common.Address, wi
 	}
 }
 
+// jsonEntrance: the same fields offered through the JSON entrance (which range-checks V, R, S) and the RLP
+// entrance (which checks nothing): which one admits them, and that an attributed sender does not depend on it
+func (h *harness) jsonEntrance(s sgn, t txv) {
+	c := h.c
+	to := "null"
+	if t.to != nil {
+		to = `"` + vh.Hex(t.to[:]) + `"`
+	}
+	qs := func(b *big.Int) string { return `"` + q(b) + `"` }
+	d := []jmember{{"nonce", fmt.Sprintf(`"0x%x"`, t.nonce)}, {"gasPrice", qs(t.price)}, {"gas", fmt.Sprintf(`"0x%x"`, t.gas)}, {"to", to},
+		{"value", qs(t.value)}, {"input", `"` + vh.Hex(t.data) + `"`}, {"v", qs(t.v)}, {"r", qs(t.r)}, {"s", qs(t.s)}}
+	doc := jrender(d)
+	viaJSON := new(types.Transaction)
+	err := viaJSON.UnmarshalJSON(doc)
+	obs := "err"
+	if err == nil {
+		hh := viaJSON.Hash()
+		obs = "ok " + fromTx(viaJSON).token() + " " + vh.Hex(hh[:])
+	}
+	c.Eval("entrance/json-vs-rlp/"+kind(s), "")
+	c.Count("entrance:json-" + strings.SplitN(obs, " ", 2)[0])
+	c.Correspond("Transaction.UnmarshalJSON~tx_of_json,tx_hash", string(doc), obs, h.m.Ask("json_tx "+jtokens(d)))
+	viaRLP := t.build()
+	rr, ra, rok := signerSender(s, viaRLP)
+	if err != nil {
+		if rok && t.price.BitLen() <= 256 && t.value.BitLen() <= 256 {
+			c.Violate("json-entrance-refuses-attributed-tx/"+s.tok+"/"+t.token(), "the JSON entrance refuses a transaction that is attributed to a sender when it arrives as RLP", map[string]string{"json": string(doc), "signer": s.tok, "rlp": vh.Hex(t.rlp()), "sender": rr})
+		}
+		return
+	}
+	jr, ja, jok := signerSender(s, viaJSON)
+	if jok != rok || ja != ra || jr != rr || viaJSON.Hash() != viaRLP.Hash() {
+		c.Violate("entrance-dependent-sender/"+s.tok+"/"+t.token(), "hash or sender of the same fields depends on the entrance (JSON vs RLP)", map[string]string{"json": string(doc), "patched": "entrance", "signer": s.tok, "rlp": vh.Hex(t.rlp()), "via_json": jr, "via_rlp": rr})
+	}
+}
+
 // ------------------------------------------------------------ field-patched JSON documents
 
 type jmember struct{ name, raw string }
@@ -1508,7 +1548,20 @@ func (h *harness) cacheMatrix(idx int, s sgn, signedObj *types.Transaction, sign
 					continue
 				}
 				want, _, _ := signerSender(b, fromTx(cp).build())
-				if got := cachedSender(b, cp); got != want {
+				got := cachedSender(b, cp)
+				if withModel {
+					// model: cache filled under a, with_signature_obj under b, then the copy queried under b
+					cv := fromTx(cp)
+					tb2 := ecTable(cv, cv.build(), set)
+					if tbl != "-" && tb2 != "-" {
+						tb2 = tbl + ";" + tb2
+					} else if tb2 == "-" {
+						tb2 = tbl
+					}
+					c.Correspond("WithSignature copy then Sender~with_signature_obj,sender_seq", a.tok+" "+b.tok+" "+t.token()+" "+vh.Hex(sig),
+						"ok "+cv.token()+" "+got, h.m.Ask("withsig "+a.tok+" "+b.tok+" "+t.token()+" "+vh.Hex(sig)+" "+b.tok+" "+tb2))
+				}
+				if got != want {
 					c.Violate("cache-unsound/with-signature/"+kind(a)+"-then-"+kind(b)+"/"+t.token(), "WithSignature returned an object that still answers with the sender cached on the original",
 						map[string]string{"path": "with-signature", "sequence": a.tok + ";" + b.tok, "rlp": vh.Hex(t.rlp()), "sig": vh.Hex(sig), "got": got, "fresh_answer_for_query": want})
 				}
@@ -1518,6 +1571,37 @@ func (h *harness) cacheMatrix(idx int, s sgn, signedObj *types.Transaction, sign
 				c.Violate("cache-unsound/original-after-copies/"+kind(a)+"/"+t.token(), "the original object's answer changed after copies were made", map[string]string{"rlp": vh.Hex(t.rlp()), "first": first, "again": again})
 			}
 		}
+	}
+	// concurrent callers with different signers on one object (atomic.Value Load / Store interleave freely):
+	// every answer must be the signer's own
+	for _, va := range cacheVariants(signed, s, idx)[:2] {
+		t := va.t
+		fresh := map[string]string{}
+		for _, b := range set {
+			fresh[b.tok], _, _ = signerSender(b, t.build())
+		}
+		obj := t.build()
+		type ans struct{ tok, got string }
+		out := make(chan ans, 64)
+		var wg sync.WaitGroup
+		for g := 0; g < 8; g++ {
+			wg.Add(1)
+			go func(g int) {
+				defer wg.Done()
+				for k := 0; k < 8; k++ {
+					b := set[(g+k)%len(set)]
+					out <- ans{b.tok, cachedSender(b, obj)}
+				}
+			}(g)
+		}
+		wg.Wait()
+		close(out)
+		for a := range out {
+			if a.got != fresh[a.tok] {
+				c.Violate("cache-unsound/concurrent/"+a.tok+"/"+t.token(), "under concurrent Sender calls with different signers one caller got another signer's answer", map[string]string{"rlp": vh.Hex(t.rlp()), "signer": a.tok, "got": a.got, "fresh_answer_for_query": fresh[a.tok]})
+			}
+		}
+		c.Eval("cache/concurrent-callers", "")
 	}
 	// the object types.SignTx returned (it ran signer.Sender on it): queried under every signer in turn
 	if signedObj != nil {
